@@ -283,6 +283,41 @@ func runC11(tier string, seed uint64, rep *Report) {
 			}
 		}
 	}
+	// ---- hidden state of library closures is per closure: several evaluations on one environment each memoize a function of
+	// their own and call it with the SAME argument lists; each must get its own function's values (all at once, then one after the other)
+	rounds := 4
+	if tier == "thorough" {
+		rounds = 40
+	}
+	for round := 0; round < rounds; round++ {
+		w := c11World()
+		nth := 6
+		res := make([]string, nth)
+		src := func(k int) string {
+			return fmt.Sprintf("(do (def w%d-f (memoize (fn [x] (do (yield!) (+ (* x 100) %d))))) (let [a (w%d-f 1) b (w%d-f 2) c (w%d-f 1)] (list a b c)))", k, k, k, k, k)
+		}
+		want := func(k int) string { return fmt.Sprintf("(%d %d %d)", 100+k, 200+k, 100+k) }
+		var wg sync.WaitGroup
+		for k := 0; k < nth; k++ {
+			wg.Add(1)
+			go func(k int) {
+				defer wg.Done()
+				o, _ := w.EvalTextWithin(src(k), 20*time.Second)
+				res[k] = Show(o.Val)
+			}(k)
+			if round%2 == 1 {
+				wg.Wait() // odd rounds: one after the other on the same environment
+			}
+		}
+		wg.Wait()
+		for k := 0; k < nth; k++ {
+			idx := rep.Add("P n", "V n | l 0 ", src(k), true, "memoize-isolation")
+			if res[k] != want(k) {
+				rep.Violate(idx, fmt.Sprintf("evaluation %d memoizes a function of its own; sharing the environment with %d others that do the same it gets %s, alone %s", k, nth-1, res[k], want(k)),
+					fmt.Sprintf("on one environment, %s: %s ... for k = 0..%d", map[bool]string{false: "at the same time", true: "one after the other"}[round%2 == 1], src(k), nth-1))
+			}
+		}
+	}
 	mergeHist(rep, g.Hist)
 	c09Library(r, rep, tier)
 }
